@@ -68,6 +68,34 @@ def impl(case):
             if isinstance(r, TagList):
                 return {"r": "ok", "kind": "group", "tags": [jtag(t) for t in r.tagList]}
             return {"r": "ok", "kind": "tag", "tag": jtag(r)}
+        if op == "ctxseq":
+            # a sequence of get_context / Pop / push on ONE TagList object: every lookup must answer as a
+            # fresh list holding the current tags would
+            tl = TagList([impl_tag(t) for t in case["tags"]])
+            out = []
+            popped = []
+            for step in case["steps"]:
+                if step[0] == "get":
+                    try:
+                        r = tl.get_context(step[1])
+                        if r is None:
+                            out.append(["none"])
+                        elif isinstance(r, TagList):
+                            out.append(["group", [jtag(t) for t in r.tagList]])
+                        else:
+                            out.append(["tag", jtag(r)])
+                    except Exception as e:
+                        out.append(["err", core.exc_kind(e)])
+                elif step[0] == "pop":
+                    t = tl.Pop()
+                    if t is not None:
+                        popped.append(t)
+                    out.append(["popped", None if t is None else jtag(t)])
+                elif step[0] == "push":
+                    if popped:
+                        tl.push(popped.pop())
+                    out.append(["pushed"])
+            return {"r": "ok", "steps": out}
         if op == "any":
             tl = TagList([impl_tag(t) for t in case["tags"]])
             a = Any()
@@ -192,6 +220,23 @@ def oracle(ctx, case, a):
             ctx.fail("wrong-error", case, "get_context failed with %s" % a["k"])
         elif got != ref:
             ctx.fail("get-context", case, "expected %r got %r" % (ref, got))
+    elif op == "ctxseq":
+        cur = list(case["tags"])
+        popped = []
+        for step, got in zip(case["steps"], a["steps"]):
+            if step[0] == "get":
+                ref = ref_get_context(cur, step[1])
+                g = ("err",) if got[0] == "err" else ("none",) if got[0] == "none" else (got[0], got[1])
+                if g != ref:
+                    ctx.fail("get-context-stateful", case, "lookup %r on a list that was looked up before answers %r, a fresh list answers %r" % (
+                        step, g, ref))
+                    break
+            elif step[0] == "pop":
+                if cur:
+                    popped.append(cur.pop(0))
+            elif step[0] == "push":
+                if popped:
+                    cur.insert(0, popped.pop())
     elif op == "any":
         ref = ref_any(case["tags"])
         got = ("err",) if a["r"] == "err" else ("ok", a["taken"], a["rest"])
@@ -289,6 +334,59 @@ def gen_shapes(ctx, rng):
 
 # ---------------------------------------------------------------- signatures
 
+def gen_ctxseq(ctx, rng):
+    alphabet = [[0, 2, 1, "07"], [1, 0, 1, "aa"], [1, 1, 1, "bb"], [1, 2, 1, "cc"], [1, 4, 1, "dd"],
+                [2, 0, 0, ""], [2, 1, 0, ""], [2, 2, 0, ""], [3, 0, 0, ""], [3, 1, 0, ""], [3, 2, 0, ""]]
+    cases = []
+    directed = [
+        ([[1, 2, 1, "cc"], [1, 1, 1, "bb"], [2, 2, 0, ""], [1, 0, 1, "aa"], [3, 2, 0, ""]], [["get", 1], ["get", 2]]),
+        ([[1, 0, 1, "aa"], [2, 1, 0, ""], [1, 2, 1, "cc"], [3, 1, 0, ""], [1, 2, 1, "dd"]], [["get", 0], ["pop"], ["get", 2]]),
+        ([[1, 1, 1, "bb"], [2, 2, 0, ""], [2, 4, 0, ""], [1, 0, 1, "aa"], [3, 4, 0, ""], [3, 2, 0, ""], [1, 4, 1, "dd"]],
+         [["get", 1], ["pop"], ["pop"], ["get", 4]]),
+    ]
+    for tags, steps in directed:
+        cases.append({"op": "ctxseq", "tags": tags, "steps": steps})
+    n = 1500 if ctx.quick else 40000
+    for _ in range(n):
+        k = rng.randrange(3, 10)
+        tags, depth = [], 0
+        for _i in range(k):
+            r = rng.random()
+            if r < 0.25:
+                tags.append(alphabet[5 + rng.randrange(3)]); depth += 1
+            elif r < 0.5 and depth > 0:
+                tags.append(alphabet[8 + rng.randrange(3)]); depth -= 1
+            else:
+                tags.append(alphabet[rng.randrange(5)])
+        while depth > 0:
+            tags.append(alphabet[8 + rng.randrange(3)]); depth -= 1
+        steps = []
+        for _j in range(rng.randrange(2, 6)):
+            r = rng.random()
+            steps.append(["get", rng.choice([0, 1, 2, 4])] if r < 0.6 else ["pop"] if r < 0.85 else ["push"])
+        cases.append({"op": "ctxseq", "tags": tags, "steps": steps})
+    return cases
+
+
+def gen_noncanonical(ctx, rng):
+    """octet strings using the forms the encoder never produces: extended tag-number octet carrying a
+    number < 15, length escapes carrying a small length, opening/closing with the class bit clear"""
+    cases = []
+    for lead_lvt in range(8):
+        for cls in (0, 8):
+            for num in (0, 1, 2, 14, 15):
+                lead = 0xF0 | cls | lead_lvt
+                for tail in (b"", b"\x00", b"\x01", b"\x00\x00", b"\x02\x00\x00", b"\xfe\x00\x01\xaa", b"\xff\x00\x00\x00\x01\xaa",
+                             b"\x04\x01\x02\x03\x04", b"\x01\xaa\x11", b"\x00\x11\x00"):
+                    cases.append({"op": "dec", "hex": (bytes([lead, num]) + tail).hex()})
+    for first in (0x05, 0x0D, 0x15, 0x1D, 0x25, 0x2D):
+        for ext in (b"\x00", b"\x01\xaa", b"\x04\x01\x02\x03\x04", b"\xfe\x00\x00", b"\xfe\x00\x02\xaa\xbb",
+                    b"\xff\x00\x00\x00\x00", b"\xff\x00\x00\x00\x01\xcc"):
+            cases.append({"op": "dec", "hex": (bytes([first]) + ext).hex()})
+            cases.append({"op": "dec", "hex": (bytes([first]) + ext + b"\x11\x00").hex()})
+    return cases
+
+
 def esc_class(lvt):
     return 0 if lvt < 5 else 1 if lvt <= 253 else 2 if lvt <= 65535 else 3
 
@@ -302,6 +400,8 @@ def sig(case, m):
         return tuple((t[0], min(t[1], 16), esc_class(t[2])) for t in case["tags"][:4])
     if case["op"] == "ctx":
         return (m["kind"], tuple(t[0] for t in case["tags"][:8]))
+    if case["op"] == "ctxseq":
+        return ("ctxseq",)
     return (len(m["taken"]), tuple(t[0] for t in case["tags"][:8]))
 
 
@@ -336,6 +436,15 @@ def run(ctx):
     run_cases(ctx, "dec-mutated", gen_dec_mutated(ctx, rng, enc, impl_enc))
     shapes = gen_shapes(ctx, rng)
     run_cases(ctx, "shapes", shapes)
+    run_cases(ctx, "noncanonical", gen_noncanonical(ctx, rng))
+    # stateful lookups: implementation vs. an independent reference on the current list (the model has
+    # no object identity: get_context is a pure function there, so this stream is oracle-only)
+    seq = gen_ctxseq(ctx, rng)
+    for c in seq:
+        r = impl(c)
+        oracle(ctx, c, r)
+        ctx.count("ctxseq", (tuple(st[0] for st in c["steps"]), tuple(t[0] for t in c["tags"][:6])))
+    ctx.sample({"stream": "ctxseq", "case": seq[1]})
     # exhaustive short octet strings
     specs = [(0, 0, 1), (1, 0, 256)]
     step = 8192
